@@ -449,9 +449,16 @@ def run_shard(prop, tier, seed, only=None, budget_scale=1.0, shrink_seconds=None
                 n = 2
         best = {"v": None, "case": None, "size": None, "t0": None}
 
+        inc0 = stats.inconclusive
+
         def test(case):
             if best["t0"] is not None and time.time() - best["t0"] > shrink_seconds:
                 return  # stop shrinking: make everything pass so that Hypothesis winds down
+            if stats.inconclusive - inc0 >= 4:
+                # the watchdog fired four times in this sub-check of this shard: whatever makes cases hang would turn the rest of
+                # the budget into hours of waiting. The remaining examples are skipped and counted; the outcome stays inconclusive.
+                stats.discarded["skipped-after-4-watchdog-timeouts:" + sc.name] = stats.discarded.get("skipped-after-4-watchdog-timeouts:" + sc.name, 0) + 1
+                return
             try:
                 run_case(mod, sc, case, stats, tier, open_f)
             except Violation as v:
